@@ -91,6 +91,12 @@ const MATE_IN_ONE: &[&str] = &[
     "k1b5/1P1N4/1K6/8/8/8/8/8 b - - 0 1",
     "7k/8/8/8/8/8/5nr1/7K w - - 0 1",
     "7k/5NR1/8/8/8/8/8/K7 b - - 0 1",
+    // the only mate in one is a push-promotion of a pawn that also has a (non-mating) capture-promotion
+    "b7/kPK5/8/1P6/8/8/8/8 w - - 0 1",
+    "8/8/8/8/1p6/8/Kpk5/B7 b - - 0 1",
+    // the only mate in one: a pawn pinned on the diagonal captures its pinner on the last rank and promotes
+    "7b/6P1/5K1k/8/6P1/8/8/8 w - - 0 1",
+    "8/8/8/6p1/8/5k1K/6p1/7B b - - 0 1",
     // stalemate tricks and under-promotion mates
     "5k2/5P2/5K2/8/8/8/8/8 w - - 0 1",
     "7k/5P2/6K1/8/8/8/8/8 w - - 0 1",
